@@ -19,6 +19,8 @@ pub enum Ret {
     FromArg,
     FromDeps,
     Gen,
+    /// `no_deps` fns only: `-> &str` borrowed from the only reference argument `a: &str` (both lifetimes elided)
+    FromElidedArg,
 }
 
 #[derive(Clone, Copy, PartialEq, Debug)]
@@ -54,6 +56,8 @@ struct Spec {
     concrete: bool,
     /// how the `async_trait` attribute is spelled (it is recognised by its name, whatever path leads to it)
     at_spelling: usize,
+    /// `no_deps` (Fn / Mod kinds): the fn has no dependency parameter, the method gets a `&self` the fn knows nothing about
+    no_deps: bool,
 }
 
 /// `reexp` re-exports the attribute (the way `axum::async_trait` / a crate prelude does)
@@ -65,7 +69,7 @@ impl Spec {
         match self.ret {
             Ret::Unit => "()".into(),
             Ret::Owned => "String".into(),
-            Ret::FromArg => format!("&{lt} str"),
+            Ret::FromArg | Ret::FromElidedArg => format!("&{lt} str"),
             Ret::FromDeps => "&'d str".into(),
             Ret::Gen => "i64".into(),
         }
@@ -75,6 +79,7 @@ impl Spec {
             Ret::Unit => String::new(),
             Ret::Owned => " -> String".into(),
             Ret::FromArg => " -> &'a str".into(),
+            Ret::FromElidedArg => " -> &str".into(),
             Ret::FromDeps => " -> &str".into(),
             Ret::Gen => " -> T".into(),
         }
@@ -83,7 +88,7 @@ impl Spec {
         match self.ret {
             Ret::Unit => "()".into(),
             Ret::Owned => "format!(\"R{}\", p0)".into(),
-            Ret::FromArg => "a".into(),
+            Ret::FromArg | Ret::FromElidedArg => "a".into(),
             Ret::FromDeps => format!("{deps}.name.as_str()"),
             Ret::Gen => "T::default()".into(),
         }
@@ -96,6 +101,9 @@ impl Spec {
         }
         if self.ret == Ret::FromArg {
             v.push(("a".into(), "&'a str".into()));
+        }
+        if self.ret == Ret::FromElidedArg {
+            v.push(("a".into(), "&str".into()));
         }
         v
     }
@@ -124,7 +132,7 @@ impl Spec {
                 }
             })
             .collect();
-        if self.ret == Ret::FromArg {
+        if matches!(self.ret, Ret::FromArg | Ret::FromElidedArg) {
             v.push("\"arg\"".into());
         }
         v.join(", ")
@@ -154,9 +162,15 @@ fn build(spec: &Spec, negative: Option<&str>) -> (String, String) {
         if spec.ret == Ret::FromDeps {
             g.insert(0, "'d".into());
         }
+        if spec.ret == Ret::FromElidedArg {
+            // the caller's lifetimes: the receiver's and the argument's are unrelated, the output is the argument's
+            g.push("'x".into());
+            g.push("'a".into());
+        }
         g.push(format!("D: {trait_path}{targs} + Sync{recv_bound_extra}"));
-        let recv = if spec.ret == Ret::FromDeps { "&'d D" } else { "&D" };
+        let recv = if spec.ret == Ret::FromDeps { "&'d D" } else if spec.ret == Ret::FromElidedArg { "&'x D" } else { "&D" };
         let send = if want_send { "    is_send(&fut);\n" } else { "" };
+        let ps_src = ps_src.replace(", a: &str", ", a: &'a str");
         format!(
             "fn witness<{}>(d: {recv}{ps_src}) {{\n    let fut = d.{method}({arg_names});\n    let _: PhantomData<{}> = out(&fut);\n{send}}}\n",
             g.join(", "),
@@ -170,7 +184,9 @@ fn build(spec: &Spec, negative: Option<&str>) -> (String, String) {
     match spec.kind {
         Kind::Fn | Kind::Mod => {
             let mut g: Vec<String> = lts.iter().map(|s| s.to_string()).collect();
-            let deps_param = if spec.concrete {
+            let deps_param = if spec.no_deps {
+                String::new()
+            } else if spec.concrete {
                 "deps: &Conf".to_string()
             } else {
                 g.push("D".into());
@@ -180,20 +196,21 @@ fn build(spec: &Spec, negative: Option<&str>) -> (String, String) {
                 g.push("T: Default + Send + Sync".into());
             }
             let gs = if g.is_empty() { String::new() } else { format!("<{}>", g.join(", ")) };
-            let f = format!("async fn the_fn{gs}({deps_param}{ps_src}){} {}", spec.ret_decl(), spec.body("deps", hold_rc));
-            let attr = format!("#[::entrait::entrait(pub TheTrait{opt})]");
+            let f = format!("async fn the_fn{gs}({deps_param}{}){} {}", if spec.no_deps { ps_src.trim_start_matches(", ") } else { ps_src.as_str() }, spec.ret_decl(), spec.body("deps", hold_rc));
+            let attr = format!("#[::entrait::entrait(pub TheTrait{}{opt})]", if spec.no_deps { ", no_deps" } else { "" });
             if spec.kind == Kind::Mod {
-                src.push_str(&format!("{attr}\npub mod m {{\n    use super::*;\n    pub {}\n    pub fn other(_deps: &impl Sized) -> i32 {{ 1 }}\n}}\nuse m::the_fn;\n", f.replace('\n', "\n    ")));
+                src.push_str(&format!("{attr}\npub mod m {{\n    use super::*;\n    pub {}\n    pub fn other({}) -> i32 {{ 1 }}\n}}\nuse m::the_fn;\n", f.replace('\n', "\n    "), if spec.no_deps { "" } else { "_deps: &impl Sized" }));
             } else {
                 src.push_str(&format!("{attr}\n{f}\n"));
             }
             src.push_str(&witness("TheTrait", "the_fn", want_send_witness, ""));
             let (mk, recv_direct) = if spec.concrete { ("Conf { name: String::from(\"cn\") }", "&app") } else { ("::entrait::Impl::new(App { name: String::from(\"an\") })", "&app") };
             let tf = if ret_is_gen { "::<_, i64>" } else { "" };
-            let tf = if ret_is_gen && spec.concrete { "::<i64>" } else { tf };
+            let tf = if ret_is_gen && (spec.concrete || spec.no_deps) { "::<i64>" } else { tf };
+            let recv_direct = if spec.no_deps { String::new() } else { format!("{recv_direct}, ") };
             let tfish = if ret_is_gen { "::<i64>" } else { "" };
             src.push_str(&format!(
-                "pub fn run() -> Vec<String> {{\n    let mut fails = vec![];\n    let app = {mk};\n    let _ = rt::take();\n    let direct = format!(\"{{:?}}\", rt::block_on(the_fn{tf}({recv_direct}, {vals})));\n    let t_direct = rt::take();\n    let via = format!(\"{{:?}}\", rt::block_on(TheTrait{tfish}::the_fn(&app, {vals})));\n    rt::expect_eq(&mut fails, \"awaited result of the trait method vs the fn\", &via, &direct);\n    let t_via = rt::take();\n    rt::expect_eq(&mut fails, \"the body ran to completion exactly once (trace)\", &t_via, &t_direct);\n    if t_direct.len() != 1 {{ fails.push(String::from(\"HARNESS: direct call did not run the body once\")); }}\n    fails\n}}\n"
+                "pub fn run() -> Vec<String> {{\n    let mut fails = vec![];\n    let app = {mk};\n    let _ = rt::take();\n    let direct = format!(\"{{:?}}\", rt::block_on(the_fn{tf}({recv_direct}{vals})));\n    let t_direct = rt::take();\n    let via = format!(\"{{:?}}\", rt::block_on(TheTrait{tfish}::the_fn(&app, {vals})));\n    rt::expect_eq(&mut fails, \"awaited result of the trait method vs the fn\", &via, &direct);\n    let t_via = rt::take();\n    rt::expect_eq(&mut fails, \"the body ran to completion exactly once (trace)\", &t_via, &t_direct);\n    if t_direct.len() != 1 {{ fails.push(String::from(\"HARNESS: direct call did not run the body once\")); }}\n    fails\n}}\n"
             ));
             summary = format!("{attr} {}", f.lines().next().unwrap_or(""));
         }
@@ -276,11 +293,16 @@ pub fn gen_cases(t: &mut Tape) -> Vec<Case> {
     if concrete || matches!(kind, Kind::TraitStatic | Kind::TraitDynAsyncTrait | Kind::ImplBlock | Kind::ImplBlockDyn) {
         rets.push(Ret::FromDeps);
     }
+    let no_deps = matches!(kind, Kind::Fn | Kind::Mod) && !concrete && t.chance(1, 4);
+    if no_deps {
+        rets.push(Ret::FromElidedArg);
+        rets.push(Ret::FromElidedArg);
+    }
     let ret = rets[t.choose(rets.len())];
     // `?Send` is meaningless together with async_trait (async_trait has its own `?Send` argument)
     let no_send = !matches!(kind, Kind::TraitDynAsyncTrait | Kind::ImplBlockDyn) && t.chance(1, 3);
     let arg_tys: Vec<&'static str> = (0..4).map(|_| *t.pick(&["i32", "u8", "bool", "String"])).collect();
-    let spec = Spec { arg_tys, kind, ret, no_send, n_args: t.range(1, 4), concrete, at_spelling: t.choose(4) };
+    let spec = Spec { arg_tys, kind, ret, no_send, n_args: t.range(1, 4), concrete, at_spelling: t.choose(4), no_deps };
     let mut classes: Vec<&'static str> = vec![match kind {
         Kind::Fn => "fn",
         Kind::Mod => "mod",
@@ -295,11 +317,15 @@ pub fn gen_cases(t: &mut Tape) -> Vec<Case> {
         Ret::FromArg => "ret:borrowed_from_arg",
         Ret::FromDeps => "ret:borrowed_from_deps",
         Ret::Gen => "ret:generic",
+        Ret::FromElidedArg => "ret:borrowed_from_elided_arg(no_deps)",
     });
+    if no_deps {
+        classes.push("no_deps");
+    }
     if no_send {
         classes.push("?Send");
     }
-    let nontrivial = matches!(ret, Ret::FromArg | Ret::FromDeps | Ret::Gen) || no_send || matches!(kind, Kind::TraitDynAsyncTrait | Kind::TraitStatic | Kind::ImplBlock | Kind::ImplBlockDyn);
+    let nontrivial = matches!(ret, Ret::FromArg | Ret::FromDeps | Ret::Gen | Ret::FromElidedArg) || no_send || matches!(kind, Kind::TraitDynAsyncTrait | Kind::TraitStatic | Kind::ImplBlock | Kind::ImplBlockDyn);
     let (src, summary) = build(&spec, None);
     let mut out = vec![Case { src, positive: true, summary: summary.clone(), nontrivial, classes: classes.clone() }];
     // negative probes (async_trait traits have their own Send story: not probed)
